@@ -22,11 +22,14 @@ RULES = {
     "R4": "RecursiveGraphIterator creates sub-iterators lazily inside the generator, after yielding the owning "
     "node, and treats GRAPH and GRAPHS attributes alike (shared rule S1)"
     " ; the per-node loop walks the live container (the graph or reversed(graph)), not a slice or copy",
+    "R6": "indexing, length, membership and iteration of the linked set read only state that every linking/unlinking "
+    "primitive maintains (or that is bound once in the constructor): a field they read that some structural primitive does "
+    "not write is a derived copy that goes stale under edits",
     "R5": "the node container of a graph is never replaced: `_nodes` is bound once, in Graph.__init__ - iterators in "
     "flight hold boxes of that container object, so an operation that rebuilds it (instead of relinking inside it) cuts them "
     "off from every later edit",
 }
-FLOORS = {"R1": 3, "R2": 4, "R3": 8, "R4": 3, "R5": 1}
+FLOORS = {"R1": 3, "R2": 4, "R3": 8, "R4": 3, "R5": 1, "R6": 5}
 EXPLANATION = (
     "Checks the structural invariants the tombstone scheme of the doubly linked node list depends on: who writes "
     "which link, control dependence of every yield on the erased test, paired updates of length and map (CFG "
@@ -327,8 +330,63 @@ def rule_r5(ctx):
     ctx.require(n >= 1, "no store to _nodes found (Graph.__init__ expected)")
 
 
+OBSERVERS = ("__getitem__", "__len__", "__contains__", "__iter__", "__reversed__")
+
+
+def rule_r6(ctx):
+    dls = ctx.repo.cls(f"{LL}:DoublyLinkedSet")
+    ctx.require(dls is not None, "DoublyLinkedSet not found")
+    box = ctx.repo.cls(f"{LL}:_LinkBox")
+    link_writers = {name for name, m in (box.methods if box else {}).items() if any(w.field in ("prev", "next") for w in field_writes(m))}
+    # structural primitives: methods that write a link field of a box or call a link-writing box method
+    prims = []
+    for name, m in dls.methods.items():
+        if name == "__init__":
+            continue
+        links = any(w.field in ("prev", "next") for w in field_writes(m))
+        viabox = any(isinstance(c.func, ast.Attribute) and c.func.attr in link_writers and norm(c.func.value) != "self" for c in calls_in(m))
+        if links or viabox:
+            prims.append(m)
+    ctx.require(len(prims) >= 2, "linking and unlinking primitives of DoublyLinkedSet not found")
+    written_by = {m.name: {w.field for w in field_writes(m) if norm(w.recv) == "self"} for m in prims}
+    written_outside_ctor = set()
+    for name, m in dls.methods.items():
+        if name != "__init__":
+            written_outside_ctor |= {w.field for w in field_writes(m) if norm(w.recv) == "self"}
+
+    def reads(m, seen):
+        out = []
+        if m.name in seen:
+            return out
+        seen.add(m.name)
+        for n in own_nodes(m.node):
+            if isinstance(n, ast.Attribute) and isinstance(n.value, ast.Name) and n.value.id == "self":
+                if n.attr in dls.methods:
+                    out += reads(dls.methods[n.attr], seen)
+                elif isinstance(n.ctx, ast.Load):
+                    out.append((n.attr, n, m))
+        return out
+
+    for oname in OBSERVERS:
+        o = dls.methods.get(oname)
+        if o is None:
+            continue  # inherited from Sequence: defined through __getitem__/__len__/__iter__
+        fields: dict[str, tuple] = {}
+        for a, n, m in reads(o, set()):
+            fields.setdefault(a, (n, m))
+        for a, (n, m) in sorted(fields.items()):
+            missing = [p_.name for p_ in prims if a not in written_by[p_.name]]
+            ok = a not in written_outside_ctor or not missing
+            ctx.check("R6", f"{oname} reads `{a}`: maintained by every structural primitive or constructor-bound", ok, m, n,
+                      f"`{oname}` answers from `self.{a}` (read in {m.name}), which {', '.join(missing)} do(es) not update: after an insertion, removal or "
+                      "move the answer describes an earlier sequence (indexing/length/membership must describe the current one)",
+                      how="fields read by the observers (through self-calls) × fields written by the primitives that write box links",
+                      construct=f"{oname} reads {a}")
+
+
 def run(ctx):
     rule_r5(ctx)
+    rule_r6(ctx)
     rule_r1(ctx)
     rule_r2(ctx)
     rule_r3(ctx)
